@@ -66,11 +66,17 @@ def parseStmt (t : String) : Option Stmt :=
   | ["tw", sig, n] => n.toNat?.map (.tw sig)
   | ["tk", sig, ms, n] => do pure (.tk false sig (← ms.toNat?) (← n.toNat?))
   | ["tkg", sig, ms, n] => do pure (.tk true sig (← ms.toNat?) (← n.toNat?))
-  | ["ts", sig, n] => n.toNat?.map (.ts true sig)
-  | ["tsn", sig, n] => n.toNat?.map (.ts false sig)
+  | ["ts", sig, n] => n.toNat?.map fun n => .ts [sig] n [] false
+  | ["tsn", sig, n] => n.toNat?.map fun n => .ts [sig] n [] false
+  | ["tsr", sig, n, _] => n.toNat?.map fun n => .ts [sig] n [] false
+  | ["tsa", sig, n] => n.toNat?.map fun n => .ts [sig] n [] true
+  | ["ts2", s1, s2, n] => if s1 = s2 then none else n.toNat?.map fun n => .ts [s1, s2] n [] false
+  | ["tc", n] => n.toNat?.map fun n => .ts ["CHLD"] n [] false
+  | ["tcx"] => some .tcx
   | "tso" :: sig :: n :: ks => if ks.isEmpty then none else do
-      let _ ← ks.mapM parseWOp
-      n.toNat?.map (.ts true sig)
+      let rest ← ks.mapM parseWOp
+      let n ← n.toNat?
+      pure (.ts [sig] n rest false)
   | ["ti"] => some .ti
   | ["gj", k] => k.toNat?.map .gj
   | ["wx"] => some .wx
